@@ -116,6 +116,7 @@ func C09(c *core.Ctx) {
 	// ---- R9.4: the name the gates test is the name of the packet that travels.
 	// R9.1/R9.2 accept a gate on pkt.Name, pkt.L3.Interest.NameV or pkt.L3.Data.NameV
 	// alike; that is sound only while Pkt.Name is the name of the packet in Pkt.L3.
+	c09ScopeNeverUnknown(c)
 	c09NameCoherence(c)
 	c09RawIsOneElement(c)
 	c09ClassifiedAddressIsSet(c)
@@ -688,4 +689,135 @@ func c09ClassifiedAddressIsSet(c *core.Ctx) {
 			}
 		}
 	}
+}
+
+// c09ScopeNeverUnknown — R9.9 (conditional on how the gates are written). The pipelines
+// recognise a non-local face by Scope() == NonLocal (or != NonLocal): a face whose scope is
+// the third value, defn.Unknown, passes every /localhost gate like a local one. While every
+// scope test of the forwarder compares with NonLocal, no transport constructor stores (and
+// no helper it takes the scope from returns) defn.Unknown: a remote address that the
+// classification cannot parse (an IPv6 link-local address with a zone) must come out
+// non-local, not unknown. If the gates compared with Local instead, Unknown would be on
+// the safe side and the rule does not apply.
+func c09ScopeNeverUnknown(c *core.Ctx) {
+	p := c.P
+	// how do the gates compare?
+	nNonLocal, nLocal := 0, 0
+	for _, pk := range []string{"/fw/fw", "/fw/mgmt", "/fw/face", "/fw/table"} {
+		for _, fn := range p.FuncsIn(core.ModPath + pk) {
+			if strings.HasSuffix(p.File(fn.Pos()), "_test.go") {
+				continue
+			}
+			core.Instrs(fn, func(in ssa.Instruction) {
+				b, ok := in.(*ssa.BinOp)
+				if !ok || (b.Op != token.EQL && b.Op != token.NEQ) {
+					return
+				}
+				for _, pr := range [][2]ssa.Value{{b.X, b.Y}, {b.Y, b.X}} {
+					k, isC := scopeConst(pr[1])
+					if !isC {
+						continue
+					}
+					if cl, isCall := core.Strip(pr[0]).(*ssa.Call); isCall {
+						if id, okID := core.Callee(&cl.Call); okID && id.Name == "Scope" {
+							if k == 0 {
+								nNonLocal++
+							} else if k == 1 {
+								nLocal++
+							}
+						}
+					}
+				}
+			})
+		}
+	}
+	c.Floor("R9.9", "scope tests of the forwarder (Scope() compared with a constant)", nNonLocal+nLocal, 3)
+	if nNonLocal == 0 {
+		c.Ok("R9.9", "stored-scope-is-never-unknown", "-", "the gates compare with Local: an unknown scope is treated as non-local")
+		return
+	}
+	// every constant that can become a transport's scope
+	bad := ""
+	nSrc := 0
+	var consts func(v ssa.Value, d int)
+	consts = func(v ssa.Value, d int) {
+		if d > 4 {
+			return
+		}
+		if k, isC := scopeConst(v); isC {
+			nSrc++
+			if k == -1 {
+				bad = c.Pos(firstInstr(v))
+			}
+			return
+		}
+		switch x := core.Strip(v).(type) {
+		case *ssa.Phi:
+			for _, e := range x.Edges {
+				consts(e, d+1)
+			}
+		case *ssa.Call:
+			if h := x.Call.StaticCallee(); h != nil && h.Blocks != nil && h.Pkg != nil && strings.HasPrefix(h.Pkg.Pkg.Path(), core.ModPath) {
+				core.Instrs(h, func(in ssa.Instruction) {
+					if r, isR := in.(*ssa.Return); isR && len(r.Results) == 1 && in.Block() != h.Recover {
+						if k, isC := scopeConst(r.Results[0]); isC {
+							nSrc++
+							if k == -1 {
+								bad = c.Pos(r)
+							}
+						} else {
+							consts(r.Results[0], d+1)
+						}
+					}
+				})
+			}
+		}
+	}
+	for _, fn := range p.FuncsIn(core.ModPath + "/fw/face") {
+		if strings.HasSuffix(p.File(fn.Pos()), "_test.go") {
+			continue
+		}
+		core.Instrs(fn, func(in ssa.Instruction) {
+			switch in := in.(type) {
+			case *ssa.Store:
+				if fa, ok := in.Addr.(*ssa.FieldAddr); ok {
+					if t, f := core.FieldAddrName(fa); t == "transportBase" && f == "scope" && fn.Name() != "makeTransportBase" {
+						if k, isC := scopeConst(in.Val); isC {
+							nSrc++
+							if k == -1 {
+								bad = c.Pos(in)
+							}
+						} else {
+							consts(in.Val, 0)
+						}
+					}
+				}
+			case ssa.CallInstruction:
+				if cc, ok := core.IsCall(in, core.CalleeID{Pkg: "fw/face", Recv: "transportBase", Name: "makeTransportBase"}); ok {
+					if _, args := core.CallArgs(cc); len(args) >= 4 {
+						if k, isC := scopeConst(args[3]); isC {
+							nSrc++
+							if k == -1 {
+								bad = c.Pos(in)
+							}
+						} else {
+							consts(args[3], 0)
+						}
+					}
+				}
+			}
+		})
+	}
+	c.Decide(bad == "", "R9.9", "stored-scope-is-never-unknown", "-", fmt.Sprintf("%d constants can become a transport's scope, none is Unknown (the gates compare with NonLocal %d times)", nSrc, nNonLocal), "a transport's scope can be defn.Unknown (at "+bad+") while the /localhost gates recognise a non-local face by Scope() == NonLocal: a face whose remote address the classification cannot parse (an IPv6 link-local address with a zone) is treated like a local application — /localhost Interests and Data are accepted from it and sent to it")
+	c.Floor("R9.9", "constants that can become a transport's scope", nSrc, 6)
+}
+
+func firstInstr(v ssa.Value) ssa.Instruction {
+	if in, ok := v.(ssa.Instruction); ok {
+		return in
+	}
+	if v.Referrers() != nil && len(*v.Referrers()) > 0 {
+		return (*v.Referrers())[0]
+	}
+	return nil
 }
